@@ -169,6 +169,25 @@ fn norms_case(x: &[f64]) -> Result<(), String> {
         let l = al * v.clone();
         ensure!(l.vec == s.vec, "f64 * Vector != Vector * f64");
     }
+    // scalar operations over f64: each element is the correctly rounded x op s, compound forms bit-identical to binary forms
+    for sc in [3.0, 7.0, 49.0, 0.1, -1.5] {
+        let d = v.clone() / sc;
+        let mt = v.clone() * sc;
+        let mut da = v.clone();
+        da /= sc;
+        let mut ma = v.clone();
+        ma *= sc;
+        let mut aa = v.clone();
+        aa += sc;
+        let mut sa = v.clone();
+        sa -= sc;
+        for i in 0..n {
+            ensure!(d[i].to_bits() == (x[i] / sc).to_bits(), "v / {}: element {} = {} expected {}", sc, i, d[i], x[i] / sc);
+            ensure!(da[i].to_bits() == d[i].to_bits(), "v /= {} differs from v / {}: {} vs {}", sc, sc, da[i], d[i]);
+            ensure!(mt[i].to_bits() == (x[i] * sc).to_bits() && ma[i].to_bits() == mt[i].to_bits(), "v * {} / v *= {}", sc, sc);
+            ensure!(aa[i].to_bits() == (x[i] + sc).to_bits() && sa[i].to_bits() == (x[i] - sc).to_bits(), "v += {} / v -= {}", sc, sc);
+        }
+    }
     // triangle inequality against a shifted copy
     let y: Vec<f64> = (0..n).map(|i| x[(i + 1) % n.max(1)] * -1.0 + 1.0).collect();
     let w = Vector::create(y.clone());
@@ -474,6 +493,48 @@ fn main() {
                 acc.nontriv("norm case");
             }
             judge(acc, idx, || format!("{:?}", x), || norms_case(&x));
+        },
+    );
+    // f64 scalar operations on data where x / s and x * (1/s) differ
+    let sl = [49.0, 5.0, 7.0, 10.0, 3.0, 1.0, -0.3];
+    let sd = [3.0, 7.0, 49.0, 10.0, 0.1, -1.5];
+    ctx.lattice(
+        "Vector<f64> scalar operations: vectors of length 1..3 over {49,5,7,10,3,1,-0.3} x scalars {3,7,49,10,0.1,-1.5}",
+        (7 + 49 + 343) * 6,
+        |idx| format!("{}", idx),
+        |idx, acc| {
+            let sc = sd[(idx % 6) as usize];
+            let mut i = idx / 6;
+            let mut len = 1u32;
+            while i >= 7u64.pow(len) {
+                i -= 7u64.pow(len);
+                len += 1;
+            }
+            let x: Vec<f64> = (0..len).map(|_| {
+                let v = sl[(i % 7) as usize];
+                i /= 7;
+                v
+            }).collect();
+            acc.nontriv("f64 scalar operation case");
+            judge(acc, idx, || format!("{:?} with scalar {}", x, sc), || {
+                let v = Vector::create(x.clone());
+                let d = v.clone() / sc;
+                let mt = v.clone() * sc;
+                let (mut da, mut ma, mut aa, mut sa) = (v.clone(), v.clone(), v.clone(), v.clone());
+                da /= sc;
+                ma *= sc;
+                aa += sc;
+                sa -= sc;
+                for k in 0..x.len() {
+                    ensure!(d[k].to_bits() == (x[k] / sc).to_bits(), "v / {}: element {} = {} expected {}", sc, k, d[k], x[k] / sc);
+                    ensure!(da[k].to_bits() == d[k].to_bits(), "v /= {} gives {} but v / {} gives {}", sc, da[k], sc, d[k]);
+                    ensure!(mt[k].to_bits() == (x[k] * sc).to_bits() && ma[k].to_bits() == mt[k].to_bits(), "v * {} / v *= {}", sc, sc);
+                    ensure!(aa[k].to_bits() == (x[k] + sc).to_bits() && sa[k].to_bits() == (x[k] - sc).to_bits(), "v += {} / v -= {}", sc, sc);
+                }
+                let l = sc * v.clone();
+                ensure!(l.vec.iter().zip(mt.vec.iter()).all(|(a, b)| a.to_bits() == b.to_bits()), "f64 * Vector differs from Vector * f64");
+                Ok(())
+            });
         },
     );
     // sequences
